@@ -690,4 +690,186 @@ theorem out_complete (limit : Nat) (chk : String → CheckRes) (res : List (Stri
   exact subset_of_nodup_length _ (crun_nodup limit chk res evs hnd) hsub hcl p.1
     (List.mem_map.mpr ⟨p, List.mem_filter.mpr ⟨hp, hc⟩, rfl⟩)
 
+/-! ### no limit (`maxResults = 0`): an error-free run is complete, whatever the schedule -/
+
+theorem fail_err (s : CSt) (h : Bool) : (s.fail h).err = true := by
+  unfold CSt.fail; split <;> simp_all
+
+theorem cstep_err_mono (limit : Nat) (chk : String → CheckRes) (s : CSt) (e : Ev)
+    (h : (cstep limit chk s e).err = false) : s.err = false := by
+  cases e with
+  | recv drop =>
+    simp only [cstep] at h
+    split at h
+    · exact h
+    · split at h
+      · exact h
+      · split at h
+        · exact h
+        · split at h
+          · obtain ⟨_, _, _, _, _, _, _, f8, _⟩ := countObj_fields limit { s with queue := ‹_› }
+            split at h
+            · simp only [f8] at h; exact h
+            · rw [f8] at h; exact h
+          · exact h
+  | checkDone i =>
+    simp only [cstep] at h
+    split at h
+    · exact h
+    · split at h
+      · obtain ⟨_, _, _, _, _, _, _, f8, _⟩ := countObj_fields limit { s with inflight := s.inflight.eraseIdx i }
+        split at h
+        · simp only [f8] at h; exact h
+        · rw [f8] at h; exact h
+      · exact h
+      · rw [fail_err] at h; cases h
+      · rw [fail_err] at h; cases h
+  | abort i => simp only [cstep] at h; split at h <;> exact h
+  | send i drop =>
+    simp only [cstep] at h
+    split at h
+    · exact h
+    · split at h <;> exact h
+  | deadline => simp only [cstep] at h; exact h
+  | stop => simp only [cstep] at h; split at h <;> exact h
+  | reError hard =>
+    simp only [cstep] at h
+    split at h
+    · exact h
+    · have : ({ (s.fail hard) with stopped := true } : CSt).err = (s.fail hard).err := rfl
+      rw [this, fail_err] at h; cases h
+
+theorem crun_err_mono (limit : Nat) (chk : String → CheckRes) (evs : List Ev) (s : CSt)
+    (h : (crun limit chk evs s).err = false) : s.err = false := by
+  induction evs generalizing s with
+  | nil => exact h
+  | cons e es ih => exact cstep_err_mono limit chk s e (ih _ h)
+
+structure ZeroInv (chk : String → CheckRes) (total : Nat) (s : CSt) : Prop where
+  live : s.cancelled = false ∧ s.dl = false
+  eq : s.out.length + s.counted.length + nAllow chk s.inflight + nConf chk s.queue = total
+  stop : s.stopped = true → s.queue = []
+
+theorem cstep_zero (chk : String → CheckRes) (total : Nat) (s : CSt) (e : Ev) (hd : e ≠ .deadline)
+    (h : ZeroInv chk total s) (hne : (cstep 0 chk s e).err = false) : ZeroInv chk total (cstep 0 chk s e) := by
+  have hz : ¬ (0 : Nat) ≠ 0 := by simp
+  cases e with
+  | recv drop =>
+    simp only [cstep] at hne ⊢
+    split
+    · exact h
+    · split
+      · rename_i hq; exact ⟨h.live, h.eq, fun _ => hq⟩
+      · rename_i o further q hq
+        have hlim : ((0 : Nat) ≠ 0 && decide (s.found ≥ 0)) = false := by simp
+        simp only [hlim, Bool.false_eq_true, if_false]
+        split
+        · rename_i hf
+          have hff : further = false := by simpa using hf
+          subst hff
+          have hcq : nConf chk s.queue = nConf chk q + 1 := by rw [hq]; simp [nConf, isConf, List.countP_cons]
+          rw [countObj_zero hz]
+          have hdl : (drop && s.dl) = false := by simp [h.live.2]
+          simp only [hdl, Bool.not_false, Bool.and_true, if_true]
+          refine ⟨h.live, ?_, ?_⟩
+          · have := h.eq
+            simp only [List.length_append, List.length_cons, List.length_nil]
+            omega
+          · intro hst; have := h.stop hst; rw [this] at hq; cases hq
+        · rename_i hf
+          have hft : further = true := by simpa using hf
+          subst hft
+          have hcq : nConf chk s.queue = nConf chk q + (if chk o = .allow then 1 else 0) := by
+            rw [hq]; simp [nConf, isConf, List.countP_cons]
+          have hca : nAllow chk (s.inflight ++ [o]) = nAllow chk s.inflight + (if chk o = .allow then 1 else 0) := by
+            simp [nAllow, List.countP_append, List.countP_cons]
+          refine ⟨h.live, ?_, ?_⟩
+          · show s.out.length + s.counted.length + nAllow chk (s.inflight ++ [o]) + nConf chk q = total
+            rw [hca]; have := h.eq; omega
+          · intro hst; have := h.stop hst; rw [this] at hq; cases hq
+  | checkDone i =>
+    simp only [cstep] at hne ⊢
+    split
+    · exact h
+    · rename_i o hio
+      have hcp := countP_eraseIdx (fun o => decide (chk o = .allow)) hio
+      cases hc : chk o with
+      | allow =>
+        simp only [hc] at hne ⊢
+        simp only [hc, decide_true, if_true] at hcp
+        rw [countObj_zero hz]
+        simp only [if_true]
+        refine ⟨h.live, ?_, h.stop⟩
+        have := h.eq; unfold nAllow at this ⊢
+        simp only [List.length_append, List.length_cons, List.length_nil]
+        omega
+      | deny =>
+        simp only [hc] at hne ⊢
+        have : decide (CheckRes.deny = CheckRes.allow) = false := by decide
+        simp only [hc, this, Bool.false_eq_true, if_false, Nat.add_zero] at hcp
+        refine ⟨h.live, ?_, h.stop⟩
+        have := h.eq; unfold nAllow at this ⊢; simp only at this ⊢; omega
+      | errCond => rw [fail_err] at hne; cases hne
+      | errHard => rw [fail_err] at hne; cases hne
+  | abort i =>
+    simp only [cstep]
+    rw [h.live.1]
+    simp only [Bool.false_eq_true, if_false]
+    exact h
+  | send i drop =>
+    simp only [cstep]
+    split
+    · exact h
+    · rename_i o hio
+      have hlen := length_eraseIdx_of_getElem? hio
+      have hdc : (drop && s.cancelled) = false := by simp [h.live.1]
+      simp only [hdc, Bool.false_eq_true, if_false]
+      refine ⟨h.live, ?_, h.stop⟩
+      have := h.eq
+      simp only [List.length_append, List.length_cons, List.length_nil]
+      omega
+  | deadline => exact absurd rfl hd
+  | stop =>
+    simp only [cstep]
+    rw [h.live.2]
+    simp only [Bool.false_eq_true, if_false]
+    exact h
+  | reError hard =>
+    simp only [cstep] at hne ⊢
+    split
+    · exact h
+    · rename_i hst
+      rw [if_neg hst] at hne
+      have : ({ (s.fail hard) with stopped := true } : CSt).err = (s.fail hard).err := rfl
+      rw [this, fail_err] at hne; cases hne
+
+/-- with `maxResults = 0`: no deadline and no error at the end ⇒ the response holds exactly the
+confirmed objects (`drop` choices and aborts are impossible: nothing ever cancels) -/
+theorem zero_limit_complete (chk : String → CheckRes) (res : List (String × Bool)) (evs : List Ev)
+    (hev : ∀ e ∈ evs, e ≠ .deadline ∧ e ≠ .stop) (hq : (crun 0 chk evs (CSt.init res)).quiescent = true)
+    (herr : (crun 0 chk evs (CSt.init res)).err = false) :
+    (crun 0 chk evs (CSt.init res)).out.length = nConf chk res := by
+  have key : ∀ (evs : List Ev) (s : CSt), (∀ e ∈ evs, e ≠ .deadline ∧ e ≠ .stop) → ZeroInv chk (nConf chk res) s →
+      (crun 0 chk evs s).err = false → ZeroInv chk (nConf chk res) (crun 0 chk evs s) := by
+    intro evs
+    induction evs with
+    | nil => intro s _ h _; exact h
+    | cons e es ih =>
+      intro s hev h hne
+      have hne1 : (cstep 0 chk s e).err = false := crun_err_mono 0 chk es _ hne
+      exact ih _ (fun e' he' => hev e' (List.mem_cons_of_mem _ he'))
+        (cstep_zero chk _ s e (hev e (by simp)).1 h hne1) hne
+  have init : ZeroInv chk (nConf chk res) (CSt.init res) := by
+    refine ⟨⟨rfl, rfl⟩, ?_, ?_⟩
+    · simp [CSt.init, nAllow]
+    · intro h; simp [CSt.init] at h
+  have inv := key evs (CSt.init res) hev init herr
+  generalize crun 0 chk evs (CSt.init res) = s at *
+  unfold CSt.quiescent at hq
+  simp only [Bool.and_eq_true, List.isEmpty_iff] at hq
+  obtain ⟨⟨hst, hinf⟩, hcnt⟩ := hq
+  have heq := inv.eq
+  rw [hinf, hcnt, inv.stop hst] at heq
+  simpa [nAllow, nConf] using heq
+
 end OpenFGAVerif.RevExpand
